@@ -21,6 +21,7 @@ import AsamCmp.Props.SrcDecoder
 import AsamCmp.Lemmas.SrcPacketValueCreate
 import AsamCmp.Lemmas.SrcPacketValueHdr
 set_option linter.unusedVariables false
+set_option linter.unusedSimpArgs false
 namespace AsamCmp.SrcPv
 open AsamCmp AsamCmp.Src AsamCmp.SrcGen
 
@@ -208,12 +209,22 @@ theorem copyAssign_src (dst src : Packet) :
     simp only [copy_src, swap_eq, bind, SrcTie.some_bind, pure, copyAssign, copyCtor, Bool.not_false, if_true]
   · rfl
 
+/-- the move constructor and the one-object `swap` on any state (rewrite rules for the two assignment theorems below, so that
+    their proofs survive a body that reaches the same result through these functions) -/
+theorem moveCtor_st (s : PacketV_St) : Packet_ctor_move_pv s = some (s, repr Packet.dflt) := by
+  unfold Packet_ctor_move_pv
+  simp only [swap_eq, bind, SrcTie.some_bind, pure]
+  rfl
+
+theorem swap_same_st (s : PacketV_St) : swap_Packet_same_pv s = some s := by
+  cases s; rfl
+
 /-- move assignment onto another object: (target afterwards, source afterwards) -/
 theorem moveAssign_src (dst src : Packet) :
     Packet_opAssign_move_pv (repr dst) (repr src) =
       some (repr (moveAssign dst src).1, (), repr (moveAssign dst src).2) := by
   unfold Packet_opAssign_move_pv
-  simp only [swap_eq, bind, SrcTie.some_bind, pure, moveAssign]
+  simp only [swap_eq, swap_same_st, moveCtor_st, Packet_ctor_default_pv, bind, SrcTie.some_bind, pure, moveAssign]
 
 /-- the scalar accessors (translated over the same record): a setter changes its member and nothing else — in particular not
     the owned payload —, a getter returns its member and changes nothing -/
@@ -237,6 +248,17 @@ theorem scalar_accessors_src (p : Packet) (v : Nat) :
     Packet_getCommonFlags_pv (repr p) = some (repr p, p.flags) ∧
     Packet_getSegmentType_pv (repr p) = some (repr p, p.segType) :=
   ⟨rfl, rfl, rfl, rfl, rfl, rfl, rfl, rfl, rfl, rfl, rfl, rfl, rfl, rfl, rfl, rfl, rfl, rfl⟩
+
+/-- `swap(p, p)`: both reference parameters denote the one object (the `_same` variant, generated from the same body with every read
+    and write through `lhs` / `rhs` going to the current `s`): the object is unchanged -/
+theorem swap_same_src (p : Packet) : swap_Packet_same_pv (repr p) = some (repr p) := swap_same_st _
+
+/-- SELF-move-assignment `p = std::move(p)` (the `_self` variant: the parameter `other` denotes `*this`): the object — payload
+    included — is unchanged, which is what the library's swap-based design gives and what "whatever the target held before …
+    self-assignment" (C14) asks.  A rewrite that releases or resets the payload before taking it over breaks this theorem. -/
+theorem moveAssign_self_src (p : Packet) : Packet_opAssign_move_self_pv (repr p) = some (repr p, ()) := by
+  unfold Packet_opAssign_move_self_pv
+  simp only [swap_eq, swap_same_st, moveCtor_st, Packet_ctor_default_pv, bind, SrcTie.some_bind, pure]
 
 /-- `setPayload`: the packet owns a copy of the argument -/
 theorem setPayload_src (p : Packet) (pl : Payload) :
@@ -312,6 +334,10 @@ example := moveCtor_src exPkt
 example := copyAssign_src Packet.dflt exPkt
 example := moveAssign_src Packet.dflt exPkt
 example := swap_src Packet.dflt exPkt
+example : swap_Packet_same_pv (repr exPkt) = some (repr exPkt) := swap_same_src exPkt
+example : Packet_opAssign_move_self_pv (repr exPkt) = some (repr exPkt, ()) := moveAssign_self_src exPkt
+example : (Packet_opAssign_move_self_pv (repr exPkt)).map (fun r => r.1.f_payload) = some (some (plRepr ⟨tyCan, exCan⟩)) := by
+  decide +kernel
 example : opEq_Payload_pv 20 false (plRepr ⟨tyCan, exCan⟩) (plRepr ⟨tyCan, exCan⟩) = some true :=
   payloadEq_src ⟨tyCan, exCan⟩ ⟨tyCan, exCan⟩ false 20 (fun h => by cases h) (by decide) (by decide)
 example : opEq_Packet_pv 20 true (repr exPkt) (repr exPkt) = some (packetEq exPkt exPkt) :=
